@@ -15,6 +15,9 @@ import (
 )
 
 func init() {
+	mutant(&Mutant{Name: "c10-runelen-unchecked", Property: "C10", File: "js/util.go",
+		Old: "\t\t\t\t\tif m == -1 {\n\t\t\t\t\t\ti++\n\t\t\t\t\t\tcontinue\n\t\t\t\t\t} else if num < 256 && quote == byte(num) {", New: "\t\t\t\t\tif num < 256 && quote == byte(num) {",
+		Rule: "R10.18", Construct: "is tested before it is used as a length"})
 	register(&Property{
 		ID:    "C10",
 		Level: "other",
@@ -101,6 +104,7 @@ func runC10(c *Ctx) {
 	c.r1015()
 	c.r128("R10.16")
 	c.r1017()
+	c.r1018()
 	// a look-ahead past the end of the input must not index past the token buffer (clause (e) of the token buffer rules)
 	c.alsoUnder(map[string]string{"R03.5": "R10.10", "R05.12": "R10.10", "R06.8": "R10.10"}, func(construct string) bool {
 		return strings.Contains(construct, "index clamped") || strings.Contains(construct, "early ends of the read loop")
